@@ -129,11 +129,27 @@ def make(max_files):
                 elif o == 2:
                     open(p, "w").write("a\nb\nc\n")  # 3 distinct values: the end-of-data check fails
                 paths.append(p)
-            with contextlib.redirect_stderr(io.StringIO()):
-                try:
-                    code = applications.main(["cutplace", "--log", "critical", cid_path] + paths)
-                except SystemExit as e:
-                    code = ("exit", e.code)
+            import logging
+            judged = []
+
+            class Capture(logging.Handler):
+                def emit(self, record):
+                    msg = record.getMessage()
+                    if msg.startswith('validate "'):
+                        judged.append(msg[len('validate "'):-1])
+
+            handler = Capture()
+            logger = logging.getLogger("cutplace")
+            logger.addHandler(handler)
+            try:
+                with contextlib.redirect_stderr(io.StringIO()):
+                    try:
+                        code = applications.main(["cutplace", "--log", "info", cid_path] + paths)
+                    except SystemExit as e:
+                        code = ("exit", e.code)
+            finally:
+                logger.removeHandler(handler)
+            should_judge = []
             if args["cid_outcome"] == 1:
                 allowed = (1,)
             elif args["cid_outcome"] == 2:
@@ -142,8 +158,13 @@ def make(max_files):
                 rejected = any(o in (1, 2) for o in outs)
                 unreadable = any(o == 3 for o in outs)
                 allowed = (1, 3) if (rejected and unreadable) else (3,) if unreadable else (1,) if rejected else (0,)
-            return code not in allowed, "CID %s, files %r -> exit code %r, expected one of %r" % (
-                CID_OUTCOMES[args["cid_outcome"]], [OUTCOMES[o] for o in outs], code, allowed), "exit-code"
+                for pth, o in zip(paths, outs):
+                    should_judge.append(pth)
+                    if o == 3:
+                        break
+            bad = code not in allowed or judged[:len(should_judge)] != should_judge
+            return bad, "CID %s, files %r -> exit code %r (expected one of %r); files judged according to the log: %d of %d expected" % (
+                CID_OUTCOMES[args["cid_outcome"]], [OUTCOMES[o] for o in outs], code, allowed, len(judged), len(should_judge)), "exit-code"
         finally:
             shutil.rmtree(d)
 
